@@ -20,10 +20,13 @@ WITHOUT the transaction scope reaches, under a UNIQUE refusal or a fault at its 
 the ordered walk is `ub oob_read` — what seeded/C15-3 breaks.
 -/
 import Proofs.C15FaultsV2
+import Proofs.C15FaultsV1
+import Properties.C15CratesV1
 
 namespace EngineModel.Properties.C15Faults
 open EngineModel EngineModel.Db.Chain EngineModel.Db.V2 EngineModel.Api.GuardedV2 EngineModel.Api.FaultsV2
 open EngineModel.Spec.Txn EngineModel.Spec.Stmts EngineModel.Proofs.C15FaultsV2
+open EngineModel.Api EngineModel.Proofs
 
 /-! ### schema 2.x crates / memberships -/
 
@@ -147,5 +150,96 @@ example : ∃ S, Inv S cxDb := by
 /-- the program of the refused move raises without any injected fault: the hypothesis of
 `v2c_C15_failed_call_restores` with `fault = none` is satisfiable -/
 example : (call none true (stmts cxDb (.setParent 3 (some 2))) cxDb).raised = true := by decide +kernel
+
+/-! ### schema 1.x crates / memberships
+
+The same composition over `Api.CratesV1.step`, its statement programs `CratesV1.stmts` (`C14_crates_v1_program`,
+`C14_crates_v1_shape`: every INSERT / UPDATE / DELETE of every loop iteration and of every level of the
+`update_path` recursion is a statement of its own, so the fault positions are the real ones) and the invariant
+`CInv` of Proofs/NoUbCratesV1.lean (forest invariant `FInv` + the AUTOINCREMENT bound).  The one `ub` of this
+model is the unbounded `update_path` recursion on a cyclic parent list. -/
+section v1
+open EngineModel.Api.CratesV1 EngineModel.Api.CratesV1.C15 EngineModel.Pure.Detect
+
+/-- Whatever makes the statement program of a 1.x crate / membership call raise (a fault at any statement
+position, or a statement failing by itself), the connection is afterwards at rest on exactly the prior tables. -/
+theorem v1c_C15_failed_call_restores (s : Schema) (d : CratesV1.Db) (op : CratesV1.Op) (fault : Option Nat) (auto : Bool)
+    (hr : (call fault auto (CratesV1.stmts s d op) d).raised = true) :
+    (call fault auto (CratesV1.stmts s d op) d).conn = Conn.idle d :=
+  C15FaultsV1.raised_restores s d op fault auto hr
+
+/-- A fault position inside the call: the call throws and the next call starts from exactly the prior state. -/
+theorem v1c_C15_fault_inside_throws (s : Schema) (d : CratesV1.Db) (op : CratesV1.Op) (p : FaultsV1.Plan)
+    (hk : p.k < FaultsV1.positions s d op) (hu : ∀ u, (CratesV1.step s d op).2 ≠ .ub u) :
+    FaultsV1.callF s d op (some p) = (d, .throw .sqlite_error) :=
+  C15FaultsV1.callF_fault_inside s d op p hk hu
+
+/-- One call under ANY plan, on ANY state: prior state or the fault-free call's; the fault-free outcome or the
+failing statement's exception. -/
+theorem v1c_C15_call_under_faults (s : Schema) (d : CratesV1.Db) (op : CratesV1.Op) (plan : Option FaultsV1.Plan) :
+    ((FaultsV1.callF s d op plan).1 = d ∨ (FaultsV1.callF s d op plan).1 = (CratesV1.step s d op).1) ∧
+    ((FaultsV1.callF s d op plan).2 = (CratesV1.step s d op).2 ∨ (FaultsV1.callF s d op plan).2 = .throw .sqlite_error) :=
+  ⟨C15FaultsV1.callF_state s d op plan, C15FaultsV1.callF_outcome s d op plan⟩
+
+/-- The invariant survives every history with failures (any operations, any arguments, any plans). -/
+theorem v1c_C15_after_faults_inv (s : Schema) {d : CratesV1.Db} (hI : CInv s d) (hist : List FaultsV1.FCall) :
+    CInv s (FaultsV1.runF s d hist) :=
+  C15FaultsV1.cinv_runF s hist hI
+
+/-- **C15 after failed calls, 1.x crates**: for ALL schema versions × ALL histories of calls (any arguments) ×
+ALL fault plans from the empty library: no call of the history has undefined behaviour (no `update_path`
+recursion runs away), the state afterwards satisfies the forest invariant, and every further call — with or
+without a fault plan — and `crate::name` (the one query of the 1.x crate paths with a dereference site) are free
+of `ub`. -/
+theorem v1c_C15_after_faults_no_ub (s : Schema) (hist : List FaultsV1.FCall) :
+    (∀ r ∈ FaultsV1.outcomesF s CratesV1.Db.empty hist, ∀ u, r ≠ .ub u) ∧
+    FInv (FaultsV1.runF s CratesV1.Db.empty hist) ∧
+    (∀ op u, (CratesV1.step s (FaultsV1.runF s CratesV1.Db.empty hist) op).2 ≠ .ub u) ∧
+    (∀ op plan u, (FaultsV1.callF s (FaultsV1.runF s CratesV1.Db.empty hist) op plan).2 ≠ .ub u) ∧
+    (∀ c u, GuardedCratesV1.crateNameSrc (FaultsV1.runF s CratesV1.Db.empty hist) c ≠ .ub u) := by
+  have hI := C15FaultsV1.cinv_runF s hist (cinv_empty s)
+  refine ⟨C15FaultsV1.outcomesF_defined s hist (cinv_empty s), hI.finv, ?_, ?_, ?_⟩
+  · exact fun op u => step_defined s hI.finv op u
+  · exact fun op plan u => C15FaultsV1.callF_defined hI op plan u
+  · exact fun c u => (EngineModel.Properties.C15CratesV1.v1c_C15_queries_no_ub _ c u).2.1
+
+def n1 (c : Char) : CratesV1.Name := [c.toNat.toUInt8]
+
+/-- roots A (1), B (2); C (3) under A -/
+def cxDb1 : CratesV1.Db :=
+  CratesV1.run .schema_1_18_0_os CratesV1.Db.empty [.createRoot (n1 'A'), .createRoot (n1 'B'), .createSub 1 (n1 'C')]
+
+/-- **The scope is what the theorem rests on, 1.x**: `crate::set_parent` (A under B) executed WITHOUT its
+`sqlite_transaction` scope (`unscoped`: the same 6 writing statements in autocommit mode), a fault on its third
+writing statement — the first INSERT INTO CrateHierarchy, after CrateParentList has been rewritten: the parent
+link A → B is durable, the ancestor closure is not.  The cycle test of `set_parent` reads the closure, so the
+reverse move (B under A) is then ACCEPTED, the parent list is cyclic and the `update_path` recursion of that very
+call never returns: `ub nontermination`.  With the scope, a fault at each of the 8 positions (BEGIN, the 6 writes, COMMIT) leaves the tables
+as they were and the reverse move is an ordinary move. -/
+theorem v1c_C15_without_scope_counterexample :
+    let s : Schema := .schema_1_18_0_os
+    let op : CratesV1.Op := .setParent 1 (some 2)
+    let r := call (some 2) false (FaultsV1.unscoped s cxDb1 op) cxDb1
+    r.raised = true ∧
+    (CratesV1.step s r.conn.view (.setParent 2 (some 1))).2 = .ub .nontermination ∧
+    FaultsV1.positions s cxDb1 op = 8 ∧
+    (∀ k, k < 8 → FaultsV1.callF s cxDb1 op (some ⟨k, false⟩) = (cxDb1, .throw .sqlite_error)) ∧
+    (CratesV1.step s cxDb1 (.setParent 2 (some 1))).2 = .ok .unit := by
+  decide +kernel
+
+/-- a history with failures on 1.x: faults on BEGIN, on a DELETE in the middle of a move, on COMMIT, beyond the call -/
+def exHist1 : List FaultsV1.FCall :=
+  [(.createRoot (n1 'A'), some ⟨0, false⟩), (.createRoot (n1 'A'), none), (.createRoot (n1 'B'), none),
+   (.createSub 1 (n1 'C'), some ⟨3, true⟩), (.createSub 1 (n1 'C'), none),
+   (.setParent 1 (some 2), some ⟨4, false⟩), (.setParent 1 (some 2), some ⟨7, false⟩), (.rename 1 (n1 'Z'), some ⟨99, false⟩),
+   (.rename 1 (n1 'A'), none), (.removeCrate 1, some ⟨5, false⟩)]
+
+example : FaultsV1.runF .schema_1_18_0_os CratesV1.Db.empty exHist1 = cxDb1 := by decide +kernel
+example : (FaultsV1.outcomesF .schema_1_18_0_os CratesV1.Db.empty exHist1).map Res.isOk =
+    [false, true, true, false, true, false, false, true, true, false] := by decide +kernel
+example : CInv .schema_1_18_0_os cxDb1 := run_cinv _ _ _ (cinv_empty _)
+example : (CratesV1.step .schema_1_18_0_os cxDb1 (.setParent 1 (some 2))).2 = .ok .unit := by decide +kernel
+
+end v1
 
 end EngineModel.Properties.C15Faults
